@@ -415,6 +415,23 @@ class LFRicStencils(LFRicCollection):
         '''
         return self._unique_extent_vars + self._unique_direction_vars
 
+    @property
+    def unique_alg_texts(self):
+        '''
+        :returns: list of the extent and direction arguments as they are \
+                  written in the Algorithm layer (e.g. 'n(1)' or 'info%depth'), \
+                  in the same order as 'unique_alg_vars'. These are the actual \
+                  arguments that the Algorithm layer must pass to the PSy \
+                  routine whose dummy arguments are named 'unique_alg_vars'.
+        :rtype: list of str
+
+        '''
+        texts = [arg.stencil.extent_arg.text for arg in
+                 self._unique_extent_args]
+        texts += [arg.stencil.direction_arg.text for arg in
+                  self._unique_direction_args]
+        return texts
+
     def _invoke_declarations(self, parent):
         '''
         Declares all stencil maps, extent and direction arguments passed into
